@@ -356,7 +356,8 @@ func (o Otto) Set(name string, value interface{}) error {
 }
 
 func (o Otto) setValue(name string, value Value) {
-	o.runtime.globalStash.setValue(name, value, false)
+	// throw: a binding that cannot be written is an error for the caller (see Set).
+	o.runtime.globalStash.setValue(name, value, true)
 }
 
 // SetDebuggerHandler sets the debugger handler to fn.
